@@ -168,9 +168,11 @@ func drawParts(r *Rng, cfg ScriptConfig, m *ModuleSpec, pi int, td TypeDecl, gen
 		if ref == "LOCAL" {
 			// reference the anchor of another package of the module, else of this one
 			// (only packages that can be imported from here without a cycle)
+			// and that are already in its import closure: a generated import must
+			// not change which packages are local to a run
 			j := pi
 			var cands []int
-			for c := 0; c <= pi; c++ {
+			for _, c := range m.Closure([]int{pi}) {
 				if importAllowed(m.Pkgs[pi].Dir, m.Pkgs[c].Dir) {
 					cands = append(cands, c)
 				}
